@@ -101,9 +101,11 @@ class Gen:
         fam = BOUNDS_FAMILIES[self.p["bounds_family"]]
         pool = LEAF_IDS[:self.p["nleaves"]] if rng.random() < 0.6 else "".join(sorted(rng.sample(LEAF_IDS, min(len(LEAF_IDS), self.p["nleaves"]))))
         pool = list(pool)
+        self.numeric_world = False
         if rng.random() < 0.08:
             k = rng.randint(2, min(3, len(pool)))
             pool = pool[:-k] + ["x10", "x9", "x2"][:k]
+            self.numeric_world = True   # ids with numeric suffixes: numeric and lexicographic order disagree
         elif rng.random() < 0.12:
             # digit strings are legal item ids; they look like the integer ids the library gives row indices and
             # default columns
@@ -253,7 +255,7 @@ class Gen:
                 free = [c for c in COMP_IDS_LATE if c not in used] or free
             elif r0 < 0.2:
                 free = [c for c in COMP_IDS_LOW if c not in used and c not in self.leafb] or free
-            elif r0 < 0.26:
+            elif r0 < 0.26 or (self.numeric_world and r0 < 0.6):
                 free = [c for c in COMP_IDS_NUM if c not in used and c not in self.leafb] or free
             if free:
                 i = rng.choice(free[:8])
@@ -378,6 +380,8 @@ class Gen:
                 rules.append(self.leaf(rng.choice(leaves)))
             else:
                 rules.append(self.compound(min(2, self.p["depth"]), used, leaves=leaves))
+        if self.numeric_world and not any(r[0] in ("var", "str", "subvar") for r in rules):
+            rules.append(self.leaf(rng.choice([i for i in leaves if i.startswith("x")] or leaves)))
         seen, out = set(), []
         for c in rules:
             if repr(c) not in seen:
@@ -946,6 +950,8 @@ def gen_c09(rng, oracle, run_index, tier="quick"):
         p["int_leaf_prob"] = max(p["int_leaf_prob"], 0.5)
         p["bounds_family"] = rng.choice(["twin", "small", "neg"])
         p["depth"] = max(p["depth"], 2)
+        if rng.random() < 0.5:
+            p["explicit_id_prob"] = min(p["explicit_id_prob"], 0.2)   # generated ids: state keyed by id collides
     g = Gen(rng, p, oracle)
     g.async_abort = True
     pair_solver = rng.choice(["builtin", "builtin", {"mode": "exact"}, None])
